@@ -80,6 +80,14 @@ CHECKS = {
    text="Bounded exhaustive exploration on the implementation: C01's program families x gas limits sampled from the step boundaries of the ample-gas run, executed on /repo's vm and on go-ethereum v1.12.0 (i) with equivalent full-data recording debug tracers - every callback with copied stack, memory, return data, gas, cost, depth, refund and error text must be equal - and (iii) with each of 17 ported tracer configurations (struct logger variants, access-list, prestate +/- diff mode, 4byte, call, flat call, mux, noop) next to its upstream original, results compared byte for byte; (ii) scenario call trees with Aspects bound everywhere, failing join-point answers and repeated invocations: start/end, enter/exit and Aspect enter/exit balanced and nested, every instruction reported at the depth of the open frames.",
    tech="stateless bounded-exhaustive enumeration of (program, gas limit, tracer configuration) executions on the real code, differential comparison with the reference implementation and its tracers; fault enumeration for event-stream balance",
    note="Access lists are compared in canonical order (both implementations build them from Go maps)."),
+ "C16": dict(cat="model_checking", ref="DESIGN.md §4 C16", engine="vcheck-map",
+   text="Exhaustive enumeration on the implementation of (a) Go map-iteration start offsets - a build overlay of the runtime's map.go turns every `range` over a map executed by the code under test into an explorable choice; all executions with <= 1 non-zero offset during the EVM execution and <= 2 during every recorder query, canonical serialisation (lists in returned order) identical across all offset vectors; (b) transaction histories: every sequence up to length L over 13 transactions touching every package-level value, in one process, each on a fresh EVM and equal pre-state: exactly one serialisation per transaction across all contexts; (c) two live EVMs with two invocations each in all 6 interleavings: each EVM's views equal its solo views.",
+   tech="exhaustive enumeration of runtime nondeterminism (map iteration offsets through a runtime seam), of operation histories up to a depth and of invocation interleavings, executed on the real code; comparison of canonical serialisations",
+   note="Maps with more than 8 entries (more than one bucket) are outside the enumerated offsets."),
+ "C17": dict(cat="model_checking", ref="DESIGN.md §4 C17",
+   text="Stateless exploration of interleavings on the implementation: 2-3 real EVM instances, each on its own StateDB, run under a cooperative scheduler with scheduling points before EVM construction, before every instruction and at every frame / Aspect enter and exit; all schedules up to the preemption bound; every instance's canonical observation (result, full event stream with gas, host callbacks, call tree, journal dump) must equal its solo run. Cancel is issued from another goroutine after each of the first N scheduling points of three looping programs: no panic, prompt stop (bounded number of further instructions), bookkeeping closed. Auxiliary: the same bodies free-running on 16 goroutines under the Go race detector.",
+   tech="stateless model checking of thread interleavings with a preemption bound (hand-written controlled scheduler over hooked operations), exhaustive enumeration of Cancel positions; separate free-running race-detector pass",
+   note="The race pass is auxiliary (not exploration); preemption points are callback boundaries."),
 }
 
 NOT_YET = {}
@@ -114,7 +122,9 @@ def main():
             "add_only": True,
         },
         "engines": [
-            {"name": "vcheck", "path": "/verif/harness", "serves_properties": [c["property_id"] for c in checks],
+            {"name": "vcheck-map", "path": "/verif/harness", "serves_properties": ["C16"],
+             "kind_free_text": "the same harness built with a build overlay that replaces the Go runtime's map.go by a copy whose mapiterinit takes its start position from a harness hook (overlays/mk_runtime_map.py)"},
+            {"name": "vcheck", "path": "/verif/harness", "serves_properties": [c["property_id"] for c in checks if c["property_id"] != "C16"],
              "kind_free_text": "hand-written Go model-checking harness: mc.Explore (stateless DFS over choice vectors with deviation bound), mc.BFS (explicit-state search by history replay), mc.Sched (cooperative scheduler); worlds for /repo's vm and upstream go-ethereum v1.12.0; master/worker sharding"},
         ],
         "checks": checks,
